@@ -391,6 +391,48 @@ def temporaries(ctx):
                 check_value(ctx, cid, rname, dict(Pm, j=j, g=gn.split('|')[0]), v, want(M), scale(M, p) * conv_slack(rname, gn))
 
 
+def conversion_ladder(ctx):
+    """the quaternion routes through the library's own conversions on a ladder the landmark letters skip: rotation angles between 1e-6 and 0.1 rad
+    (matrix -> quaternion), and quaternions given as numbers that are unit only to 2 .. 7 decimals (normalising constructor)"""
+    import spatialmath as sm
+    p = np.array([0.3, -0.2, 0.5])
+    axes = [alph.unit((1, 2, 3)), alph.unit((0.1, 1, 0.3)), alph.unit((-2, 1, 0.5))]
+    for th in (1e-6, 1e-5, 6e-5, 1e-4, 3e-4, 5e-4, 1e-3, 3e-3, 1e-2, 0.03, 0.06, 0.08, 0.1):
+        for ai, ax in enumerate(axes):
+            R = ref.mp_rot(ax, th)
+            M = ref.rt(R, (1.0, -2.0, 0.5))
+            for rname, f, Mref in (('UnitQuaternion(R).mul', lambda: sm.UnitQuaternion(R.copy()) * p.copy(), R), ('UnitQuaternion(SO3).mul', lambda: sm.UnitQuaternion(sm.SO3(R.copy())) * p.copy(), R),
+                                   ('UnitDualQuaternion(SE3).mul', lambda: sm.UnitDualQuaternion(sm.SE3(M.copy())) * p.copy(), M), ('UnitQuaternion(R).mul/3xN', lambda: sm.UnitQuaternion(R.copy()) * np.c_[p, 2 * p, -p], R)):
+                cid = 'C06/ladder/theta=%g/axis=%d/%s' % (th, ai, rname)
+                if not ctx.want(cid):
+                    continue
+                ctx.case(cid, key=cid)
+                Pm = dict(cls=rname.split('(')[0], law='ladder', theta=th)
+                ok, r = call(f)
+                if not ok:
+                    ctx.fail(cid, rname.split('/')[0], 'raises:' + type(r).__name__, Pm, '%r' % (r,))
+                    continue
+                want = apply_ref(Mref, np.c_[p, 2 * p, -p]) if rname.endswith('3xN') else apply_ref(Mref, p)
+                check_value(ctx, cid, rname.split('/')[0], Pm, r, want, scale(Mref, p) * (2 if rname.endswith('3xN') else 1))
+    q0 = ref.r2q_ref(ref.rotx(0.7) @ ref.roty(-0.4) @ ref.rotz(0.9))
+    R0 = ref.q2r(q0)
+    for e in (1e-2, 1e-3, 3e-4, 1e-4, 1e-5, 1e-6, 1e-7):
+        for sg in (1, -1):
+            qn = q0 * (1 + sg * e)
+            for rname, f in (('UnitQuaternion(array)', lambda: sm.UnitQuaternion(qn.copy()) * p.copy()), ('UnitQuaternion(list)', lambda: sm.UnitQuaternion(qn.tolist()) * p.copy()),
+                             ('UnitQuaternion(s,v)', lambda: sm.UnitQuaternion(qn[0], qn[1:].copy()) * p.copy()), ('UnitQuaternion(Nx4)', lambda: (sm.UnitQuaternion(np.array([qn, q0])) * p.copy())[:, 0])):
+                cid = 'C06/ladder/norm=1%+g/%s' % (sg * e, rname)
+                if not ctx.want(cid):
+                    continue
+                ctx.case(cid, key=cid)
+                Pm = dict(cls='UnitQuaternion', law='ladder', normerr=sg * e, form=rname)
+                ok, r = call(f)
+                if not ok:
+                    ctx.fail(cid, 'UnitQuaternion.mul', 'raises:' + type(r).__name__, Pm, '%r' % (r,))
+                    continue
+                check_value(ctx, cid, 'UnitQuaternion.mul', Pm, r, R0 @ p, 1.0)
+
+
 def qvmul_cases(ctx):
     import spatialmath.base as b
     tier, seed = ctx.tier, ctx.seed
@@ -421,6 +463,7 @@ def shards(tier, seed):
     out.append(('qvmul',))
     out.append(('udq',))
     out.append(('temporaries',))
+    out.append(('ladder',))
     return out
 
 
@@ -438,5 +481,7 @@ def run_shard(ctx, shard):
         udq_assoc(ctx)
     elif k == 'temporaries':
         temporaries(ctx)
+    elif k == 'ladder':
+        conversion_ladder(ctx)
     else:
         qvmul_cases(ctx)
